@@ -52,9 +52,9 @@ def gen_corr(rng):
     if Ts and min(Ts) <= j['T_ref'] <= max(Ts) and rng.random() < 0.35:
         j['range'] = None          # no declared range: T_ref lies inside the tabulated span
     elif Ts:
-        j['range'] = rng.choice([[50.0, 3000.0], [min(Ts + [j['T_ref']]), max(Ts + [j['T_ref']])], [99.5, 1666.66], [99.99996, 1999.9996]])
+        j['range'] = rng.choice([[50.0, 3000.0], [min(Ts + [j['T_ref']]), max(Ts + [j['T_ref']])], [99.5, 1666.66], [99.99996, 1999.9996], [0.0, 1500.0], [0.0, 3000.0]])  # (a bound of exactly 0 K is a bound: batch 12)
     elif rng.random() < 0.5:
-        j['range'] = rng.choice([[100.0, 1500.0], [250.0, 1000.5]])
+        j['range'] = rng.choice([[100.0, 1500.0], [250.0, 1000.5], [0.0, 1500.0]])
     if rng.random() < 0.5:
         j['mutate'] = rng.choice(['del_H', 'del_S', 'del_Cp', 'set_range'])
     k = rng.random()
